@@ -107,6 +107,11 @@ func c10Keys(c *Ctx, n int) []procKey {
 	for _, p := range c10Disturbers {
 		add(p, nil, `[1,2]`, false)
 	}
+	for _, cp := range c13Corpus() {
+		if len(cp.Files) == 1 && len(keys) < n-40 {
+			add(cp.Prog, nil, cp.Files[0], false)
+		}
+	}
 	g := &gen{r: rng, strict: true}
 	for len(keys) < n {
 		prog := g.program()
